@@ -535,6 +535,15 @@ func oneHistory(g *hc.Gen, o *hc.Out, scratch, bin string, h int) {
 				// interrupted commit must publish nothing (every file as before that COMMIT)
 				how = "interrupt-in-commit"
 			}
+			// a third interrupt variant: the signal arrives DURING THE LAST STATEMENT, which does not notice it
+			// (an external command that signals csvq and then returns): no implicit commit may follow
+			interruptLast := how == "interrupt" && !stoppedByFailure && g.Intn(2) == 0
+			if interruptLast {
+				sig := g.Pick("INT", "TERM")
+				_ = os.WriteFile(filepath.Join(d2, "sig.sh"), []byte("kill -"+sig+" $PPID\nsleep 0.4\n"), 0o755)
+				text.WriteString("$ sh sig.sh;")
+				how = "interrupt-last"
+			}
 			switch how {
 			case "interrupt-in-commit":
 				text.WriteString("COMMIT;")
@@ -550,7 +559,7 @@ func oneHistory(g *hc.Gen, o *hc.Out, scratch, bin string, h int) {
 				env = append(env, fmt.Sprintf("VERIF_SIGNAL_AT=tx.commit.encode#%d:%s", 1+g.Intn(3), g.Pick("SIGINT", "SIGTERM")))
 			}
 			if how == "interrupt" {
-				// a first run lists the points; the signal is then delivered at the first file access:
+				// (variant 1) a first run lists the points; the signal is then delivered at the first file access:
 				// the transaction has published nothing, so every file must keep its initial bytes
 				trace := filepath.Join(scratch, fmt.Sprintf("c01-%d-trace", h))
 				_ = os.Remove(trace)
@@ -591,6 +600,14 @@ func oneHistory(g *hc.Gen, o *hc.Out, scratch, bin string, h int) {
 			// model: replay the lines silently, then the ending; only the final disk is compared
 			for _, l := range lines {
 				o.Case(strings.Replace(l, "c01.", "c01.q", 1), "-")
+			}
+			if how == "interrupt-last" {
+				how = "interrupt"
+				_ = os.Remove(filepath.Join(d2, "sig.sh"))
+				if !strings.Contains(ob.String(), "signal received") {
+					o.Law("signal_in_last_statement_not_reported", map[string]interface{}{"program": text.String(), "output": ob.String()})
+				}
+				o.Count("process_runs:interrupt-last")
 			}
 			if how == "interrupt-in-commit" {
 				how = "interrupt"
